@@ -58,6 +58,7 @@ class Report:
         self.violations: List[Violation] = []
         self.undecided: List[str] = []
         self.tool_errors: List[str] = []
+        self.not_verified: List[str] = []
         self.functions: List[dict] = []
         self.obligations = 0
         self.discharged = 0
@@ -93,6 +94,14 @@ class Report:
 
     def tool_error(self, msg: str):
         self.tool_errors.append(msg)
+
+    def drift(self, msg: str):
+        """the sidecar of a function does not fit the working tree's version of it (renamed local,
+        construct outside the subset, function gone): that function is NOT under proof in this run.
+        Not an alarm and not a harness failure: reported, recorded in the evidence, exit code unaffected
+        (the bounded drivers still decide on the real code)"""
+        if msg not in self.not_verified:
+            self.not_verified.append(msg)
 
     # -- finishing ---------------------------------------------------------------------
     def resolve_p_failures(self):
@@ -138,6 +147,8 @@ class Report:
             print(f"UNDECIDED property={self.prop} obligation={u}")
         for t in self.tool_errors:
             print(f"TOOL-ERROR property={self.prop} {t}")
+        for t in self.not_verified:
+            print(f"NOT-VERIFIED property={self.prop} {t}")
         self.write_evidence(len(new))
         # a violation reproduced on a concrete input stands even if part of the machinery could not
         # run on the changed code (e.g. a sidecar that no longer fits a rewritten function)
@@ -180,6 +191,7 @@ class Report:
             "undecided": self.undecided,
             "known_findings_hit": self.known_hit,
             "tool_errors": self.tool_errors,
+            "not_verified_on_this_tree": self.not_verified,
             "exhaustive": False,
         }
         coverage.update(self.extra)
